@@ -450,7 +450,7 @@ Qed.
 (** the state after [collect_garbage ;;; reorder(order)] satisfies the
     hypotheses of the conversion proper; held nodes keep their functions *)
 Theorem b2m_prefix_link dvars s L :
-  Inv s → Counts s L → last_len s = None → tape s = [] →
+  Inv s → Counts s L → last_len s = None → max_nodes s = None → tape s = [] →
   (∀ u, u ∈ roots s → held L u) → dvars_wf dvars s →
   ∃ s1 s2, collect_garbage None s = (Ok tt, s1) ∧
     reorder (Some (list_to_map (b2m_b2s dvars))) s1 = (Ok tt, s2) ∧
@@ -458,7 +458,7 @@ Theorem b2m_prefix_link dvars s L :
     keepsH L s s2 ∧ vars s2 = list_to_map (b2m_b2s dvars) ∧
     dvars_wf dvars s2 ∧ b2m_wf dvars s2.
 Proof.
-  intros HI HC Hoff Ht Hroots Hdw.
+  intros HI HC Hoff Hmx Ht Hroots Hdw.
   destruct (collect_garbage None s) as [rg s1] eqn:Eg.
   pose proof (gc_nozero s L rg s1 HI HC Eg) as Hnz1.
   destruct (nt_collect_garbage None s rg s1 Ht Eg) as [Ht1 _].
@@ -474,6 +474,7 @@ Proof.
   assert (Hdw1 : dvars_wf dvars s1) by (apply (dvars_wf_vars dvars s); [by rewrite Ev1|done]).
   set (order := list_to_map (b2m_b2s dvars) : gmap nat nat).
   assert (Hoff1 : last_len s1 = None) by (destruct Hfr1 as (E&_); by rewrite E).
+  assert (Hmx1 : max_nodes s1 = None) by (by rewrite (frame_max_nodes _ _ Hfr1)).
   assert (Hroots1 : ∀ u, u ∈ roots s1 → held L u).
   { destruct Hfr1 as (_&_&E&_). rewrite E. done. }
   pose proof (target_nodup dvars s1 Hdw1) as Hnd.
@@ -481,9 +482,10 @@ Proof.
   { intros b k. by apply imap_index_lookup. }
   destruct (reorder (Some order) s1) as [r s2] eqn:Er.
   destruct (nt_reorder (Some order) s1 r s2 Ht1 Er) as [Ht2 Hne].
+  destruct (nft_reorder (Some order) s1 r s2 Hmx1 Er) as [_ Hnr].
   pose proof Er as Er0. cbn [reorder] in Er.
-  destruct (sort_to_order_correct order s1 L r s2 ltac:(by split_and!)) as [?|(->&HStp&Ev2&_)];
-    [| | | |exact Er|done|].
+  destruct (sort_to_order_correct order s1 L r s2 ltac:(by split_and!))
+    as [?|[?|(->&HStp&Ev2&_)]]; [| | | |exact Er|done|done|].
   - apply stdpp.sets.set_eq. intros b. unfold order. rewrite dom_list_to_map_L, elem_of_list_to_set.
     rewrite b2s_fst, (target_elem dvars s1 Hdw1), (dw_decl _ _ Hdw1), elem_of_dom. done.
   - intros v v' l Hv Hv'. apply Hord in Hv, Hv'. congruence.
@@ -987,7 +989,7 @@ Proof.
 Qed.
 
 Theorem bdd_to_mdd_correct dvars order s L r s' :
-  Inv s → Counts s L → last_len s = None → tape s = [] →
+  Inv s → Counts s L → last_len s = None → max_nodes s = None → tape s = [] →
   (∀ u, u ∈ roots s → held L u) → 0 < L 1%positive → dvars_wf dvars s →
   bdd_to_mdd dvars order s = (r, s') →
   ∃ s1 s2, collect_garbage None s = (Ok tt, s1) ∧
@@ -999,8 +1001,8 @@ Theorem bdd_to_mdd_correct dvars order s L r s' :
         ∀ u, 0 < L u → ∃ x, (u, x) ∈ umap ∧ mvalid mdd x ∧
           ∀ I, minrange mdd I → MD mdd x I = denv s (Z.pos u) (bitval dvars I))).
 Proof.
-  intros HI HC Hoff Ht Hroots HL1 Hdw Hrun.
-  destruct (b2m_prefix_link dvars s L HI HC Hoff Ht Hroots Hdw)
+  intros HI HC Hoff Hmx Ht Hroots HL1 Hdw Hrun.
+  destruct (b2m_prefix_link dvars s L HI HC Hoff Hmx Ht Hroots Hdw)
     as (s1&s2&Eg&Er&HI2&HC2&Hoff2&Ht2&Hnz2&HK2&Hv2&Hdw2&Hwf2).
   exists s1, s2. split; [done|]. split; [done|].
   rewrite bdd_to_mdd_unfold in Hrun. cbv zeta in Hrun.
